@@ -307,7 +307,7 @@ func newEnv() *env {
 	e.VM.AddFunc(&fnV{e})
 	e.VM.AddFunc(&fnR{e})
 	e.VM.AddFunc(&fnE{e})
-	e.runBatch(nil, operandInit("o", 0, V{K: "o"})+operandInit("c", 0, V{K: "c"})+"__r(0 - 1, $o);\n__r(0 - 2, $c);\n")
+	e.runBatch(nil, "function c03void() {}\n"+operandInit("o", 0, V{K: "o"})+operandInit("c", 0, V{K: "c"})+"__r(0 - 1, $o);\n__r(0 - 2, $c);\n")
 	// names gettype() gives the kinds, taken from witness values
 	wit := []V{vs(""), vb(true), vi(0), vf(0.5), vn(), va(0), {K: "o"}, {K: "c"}}
 	var sb strings.Builder
